@@ -20,7 +20,9 @@ LEVEL_TEXT = ("Theorems in coq/Props/C19.v over Model/Clone.v (field values as t
               "object that the original reaches (object-identity walk), and random in-place edits and assignments on either "
               "side leave the other side, and the Gfa, written as before.")
 RULE = ("every line (all record types, connected, virtual and free-standing) of GFA1/GFA2 documents from the shared generators "
-        "with tags of every datatype, levels 0-3; 3-10 random edits per side. Non-trivial: the line has at least one value "
+        "with tags of every datatype, placeholders included (segments left undefined), levels 0-3; 3-10 random edits per side; "
+        "the records of an extension (two record types registered with register_extension, one with two reference fields) in "
+        "a process of its own. Non-trivial: the line has at least one value "
         "with a mutable part (list, alignment, JSON, oriented line, field array).")
 
 
